@@ -27,10 +27,10 @@ MUTANTS = [
         {"file": "src/proxy/cluster.rs", "old": "        let peer_slot_ranges = cluster_meta.get_peer().clone();", "new": "        let peer_slot_ranges = cluster_meta.get_local().clone();"}],
      "expect": "C02.D1:proxy"},
     {"name": "coordinator-empty-peer-map", "file": "src/coordinator/sync.rs", "old": "        node_map,\n        peer_node_map,\n        clusters_config,", "new": "        node_map,\n        HashMap::new(),\n        clusters_config,", "expect": "C02.D1:coordinator"},
-    {"name": "cluster-map-before-migration-map", "file": "src/proxy/manager.rs", "old": "    let mut cmd_ctx = match meta_map.migration_map.send(cmd_ctx) {", "new": "    let cmd_ctx = match meta_map.cluster_map.send(cmd_ctx) { Ok(()) => return Ok(()), Err(ClusterSendError::SlotNotFound(c)) => c, Err(_) => return Ok(()) };\n    let mut cmd_ctx = match meta_map.migration_map.send(cmd_ctx) {", "expect": "C02.D2"},
-    {"name": "broker-peers-include-replicas", "file": "src/broker/query.rs", "old": ".filter(|n| n.get_role() == Role::Master && n.get_proxy_address() != address)", "new": ".filter(|n| n.get_proxy_address() != address)", "expect": "C02.D1:broker:peers"},
+    {"name": "retry-falls-through-to-cluster-map", "file": "src/proxy/manager.rs", "old": "            ClusterSendError::Retry(cmd_ctx) => return Err(RetryError::new(cmd_ctx.into_inner())),", "new": "            ClusterSendError::Retry(cmd_ctx) => cmd_ctx,", "expect": "C02.D2"},
+    {"name": "broker-peers-include-replicas", "file": "src/broker/query.rs", "old": ".filter(|n| n.get_role() == Role::Master && n.get_proxy_address() != address)", "new": ".filter(|n| n.get_proxy_address() != address)", "expect": "C02.D1:broker"},
     {"name": "slot-map-skips-tagged", "file": "src/proxy/slot.rs", "old": "            for slot_range in slot_ranges {\n                for range in", "new": "            for slot_range in slot_ranges {\n                if slot_range.tag.is_migrating() {\n                    continue;\n                }\n                for range in", "expect": "C02.D1:slot-map"},
-    {"name": "moved-to-other-slot-owner", "file": "src/proxy/cluster.rs", "old": "        match self.slot_map.get(slot) {\n            Some(addr) => {\n                if self.active_redirection", "new": "        match self.slot_map.get(slot + 1) {\n            Some(addr) => {\n                if self.active_redirection", "expect": "C02.D2"},
+    {"name": "moved-to-other-slot-owner", "file": "src/proxy/cluster.rs", "old": "        match self.slot_map.get(slot) {\n            Some(addr) => {\n                if self.remote_backend.is_some() {", "new": "        match self.slot_map.get(slot + 1) {\n            Some(addr) => {\n                if self.remote_backend.is_some() {", "expect": "C02.D2"},
 ]
 
 
